@@ -1,6 +1,7 @@
 (* props/C50.v — property theorems for C50 (backfilled blocks contain exactly the input samples).
    Model: model/Backfill.v (promtool's getMinAndMaxTimestamps, getCompatibleBlockDuration,
-   createBlocks, backfill, and the per-block Commit of the BlockWriter's head).  Statements only;
+   createBlocks, backfill, and the Append / Commit batches of 5000 samples on the BlockWriter's
+   head of each block).  Statements only;
    proofs are in proof/BackfillProofs.v.
 
    Vocabulary (model/Backfill.v): an input is the list of entries the OpenMetrics parser yields;
@@ -24,8 +25,11 @@ Theorem C50_partition : forall mx input,
     NoDup (map key (all_samples bl)).
 Proof. exact partition. Qed.
 
-(* Whatever the order of the lines: nothing is invented and nothing is stored twice. *)
-Theorem C50_sound : forall mx input bl, in_range input -> backfill mx input = BFOk bl ->
+(* Whatever the order of the lines, for the blocks a run leaves in the output directory (all of
+   them on success, those written before an "add sample" error otherwise): nothing is invented
+   and nothing is stored twice. *)
+Theorem C50_sound : forall mx input bl, in_range input ->
+  backfill mx input = BFOk bl \/ backfill mx input = BFCreateErr bl ->
   (forall s t v, In (s, t, v) (all_samples bl) -> In (ESample s (Some t) v) input) /\
   NoDup (map key (all_samples bl)).
 Proof. exact sound. Qed.
@@ -34,7 +38,8 @@ Proof. exact sound. Qed.
    (2h if the maximum is smaller); every block was written for a window [d*k, d*k + d), is not
    empty, holds only samples of that window, its meta range [mint, maxt) lies inside the window
    and covers its samples; the windows of the blocks are pairwise different (increasing). *)
-Theorem C50_aligned : forall mx input bl, in_range input -> backfill mx input = BFOk bl ->
+Theorem C50_aligned : forall mx input bl, in_range input ->
+  backfill mx input = BFOk bl \/ backfill mx input = BFCreateErr bl ->
   exists d, compatible_block_duration mx = Some d /\ In d block_ranges /\
     (default_block_duration <= mx -> d <= mx) /\
     (forall r, In r block_ranges -> r <= mx -> r <= d) /\
@@ -53,12 +58,20 @@ Theorem C50_reject_without_ts : forall mx input,
   exists e, backfill mx input = BFRejected e.
 Proof. exact backfill_rejects. Qed.
 
-(* ... and nothing else is rejected; there is no third outcome (no panic on ranges[idx], no
-   error after some blocks were written). *)
+(* ... and nothing else is rejected; there is never a panic on ranges[idx]; an error after the
+   scan ("add sample", possibly after blocks were written) happens only for inputs that are
+   not ordered. *)
 Theorem C50_total : forall mx input,
   (exists e, backfill mx input = BFRejected e /\ ~ well_formed input) \/
-  (exists bl, backfill mx input = BFOk bl /\ well_formed input).
+  (exists bl, backfill mx input = BFOk bl /\ well_formed input) \/
+  (exists w, backfill mx input = BFCreateErr w /\ well_formed input).
 Proof. exact backfill_total. Qed.
+
+Theorem C50_create_err_only_unordered : forall mx input w,
+  in_range input -> backfill mx input = BFCreateErr w ->
+  well_formed input /\
+  ~ (forall d, compatible_block_duration mx = Some d -> ordered d (samples_of input)).
+Proof. exact create_err_unordered. Qed.
 
 (* The code before "fix: promtool: backfill drops samples with negative timestamps" (first
    block start = d * (mint / d) with Go's truncating division) violated C50_partition. *)
@@ -70,7 +83,8 @@ Theorem C50_partition_old_refuted : exists mx input,
 Proof. exact partition_old_refuted. Qed.
 
 (* The ordering hypothesis of C50_partition cannot be dropped: lines of one series that go back
-   in time inside one block window are dropped by the head's Commit without an error. *)
+   in time inside one block window (and inside one appender batch) are dropped by the head's
+   Commit without an error. *)
 Theorem C50_partition_unordered_refuted : exists mx input,
   well_formed input /\ in_range input /\
   exists bl, backfill mx input = BFOk bl /\
@@ -97,3 +111,10 @@ Proof. exact reject_example. Qed.
 Example C50_old_input_fixed :
   backfill 0 old_input = BFOk [mkBlock (-7200000) [(0, -1, 7)]; mkBlock 0 [(0, 5, 8)]].
 Proof. exact old_input_fixed. Qed.
+
+(* The same out-of-order line is a fatal error when it comes after an appender batch boundary
+   (5000 samples of the block), and the earlier window's block stays in the output directory;
+   one position earlier it is dropped silently and the run succeeds. *)
+Example C50_batch_boundary_error :
+  backfill 0 (batch_input (ESample 0 (Some 4) 1)) = BFCreateErr [mkBlock (-7200000) [(0, -1, 1)]].
+Proof. exact batch_boundary_error. Qed.
